@@ -11,7 +11,7 @@ def run(pid, tier):
     build_harness()
     collect(o, pid, tier, toy=True)
     o.assumptions = [
-        'NOT decided: F[i] = f(X[i]) to 1e-14 (needs exp), v = r f(r) + tail area (needs erfc/exp), the accept/reject decision inside the wedge (compares with exp), the laws of the tail routines, the statistical match per layer',
+        'table VALUES are compared (2^-30) with spec/ZigRefTable.tla, the ziggurat computed independently from R with mpmath (exp/erfc are not TLC\'s); NOT decided: the accept/reject decision inside the wedge (compares with exp), the laws of the tail routines, the statistical match per layer',
         'design level: ZigToy.tla counts tickets of the transcribed loop on a rational toy density (4 layers, 48x48 lattice): law holds up to lattice resolution, three wrong designs fail; the real loop is bound by the automaton over observable facts (layer bits, sign bit, words consumed, result region)',
         'fixed-point limbs floor(x*2^40), floor(f*2^45) and ordinals are representation changes made by the harness',
     ]
@@ -27,7 +27,7 @@ def collect(o, pid, tier, toy=True):
     tab = wd / 'zigtables.ndjson'
     s = rdv(['zig-export', '--out', tab])
     r = tlc('ZigTables', 'ZigTables.cfg', pid, pre + 'tables', workers=1, env={'TABLE': tab}, timeout=3000, heap='4g')
-    o.add_tlc(r, 'ZigTables: structural equations over 4 x 257 entries + 2 constants')
+    o.add_tlc(r, 'ZigTables: structural equations and reference values over 4 x 257 entries + 2 constants')
     o.extra['table_entries'] = s['entries']
     if r.violated or 'TABLE-BAD' in r.out:
         i = r.out.find('<<"TABLE-BAD"')
